@@ -133,25 +133,9 @@ impl RayCast for HeightField {
         let (min_t, mut max_t) = aabb.clip_ray_parameters(ray)?;
         max_t = max_t.min(max_time_of_impact);
         let clip_ray_a = ray.point_at(min_t);
-        let mut cell = match self.cell_at_point(&clip_ray_a) {
-            Some(cell) => cell,
-            // None may happen due to slight numerical errors.
-            None => {
-                let i = if ray.origin.z > 0.0 {
-                    self.nrows() - 1
-                } else {
-                    0
-                };
-
-                let j = if ray.origin.x > 0.0 {
-                    self.ncols() - 1
-                } else {
-                    0
-                };
-
-                (i, j)
-            }
-        };
+        // The clipped point lies on the boundary of the Aabb, so rounding errors may put it
+        // slightly outside of the heightfield bounds: clamp it to the closest cell.
+        let mut cell = self.closest_cell_at_point(&clip_ray_a);
 
         loop {
             let tris = self.triangles_at(cell.0, cell.1);
